@@ -560,8 +560,22 @@ func (generator *BuilderGenerator) structObjectToBuilder(schemas Schemas, schema
 		Name:    object.Name,
 	}
 
-	structType := schemas.ResolveToType(object.Type).AsStruct()
+	resolvedObjectType := schemas.ResolveToType(object.Type)
+	if !resolvedObjectType.IsStruct() {
+		return builder
+	}
+
+	// the fields of a struct generated from a disjunction are its branches: a constant one
+	// (`"auto" | int`) is a branch that can be selected, not a value fixed by the schema.
+	fieldsAreBranches := resolvedObjectType.IsStructGeneratedFromDisjunction()
+
+	structType := resolvedObjectType.AsStruct()
 	for _, field := range structType.Fields {
+		if fieldsAreBranches {
+			builder.Options = append(builder.Options, generator.structFieldToOption(field))
+			continue
+		}
+
 		if field.Type.IsScalar() && field.Type.AsScalar().IsConcrete() {
 			constantAssignment := ConstantAssignment(PathFromStructField(field), field.Type.AsScalar().Value)
 
